@@ -99,8 +99,8 @@ class Exec:
                     ev.append(["call", fn, nowrap, per])
             for d in devs:
                 for f in ctrs:
-                    if not self.present[fn][d] or d == "z":
-                        continue
+                    if d == "z":
+                        continue          # (a re-plugged device may come back with other counter values)
                     for v in VALS:
                         if v != self.raw[fn][d][f]:
                             ev.append(["set", fn, d, f, v])
